@@ -515,18 +515,22 @@ type hUpdate struct {
 	signer   string // key material of the key that signed the transaction
 }
 
-type hBounds struct{ docs, vers, ctrl, otherCtrl, keys, prevs int }
+type hBounds struct{ docs, vers, ctrl, otherCtrl, keys, prevs, propShapes int }
 
 // vProposed: the proposed next version of document 0. Its controllers and keys are whatever the sender
-// likes: none (a deactivation), self-controlled with a key, or controlled by document 1 with a key.
-func vProposed(u *hUpdate) {
+// likes; shapes: 0 = controlled by itself and by document 1, with a key; 1 = no controller entries, with a
+// key; 2 = no controllers, no keys (a deactivation).
+func vProposed(u *hUpdate, shapes int) {
 	u.proposed = did.Document{ID: hDID(0), Context: []interface{}{did.DIDContextV1URI()}}
-	shape := vChoice(3)
-	if shape == 0 {
-		return
+	shape := 0
+	if shapes > 1 {
+		shape = vChoice(shapes)
 	}
 	if shape == 2 {
-		u.proposed.Controller = append(u.proposed.Controller, hDID(1))
+		return
+	}
+	if shape == 0 {
+		u.proposed.Controller = append(u.proposed.Controller, hDID(0), hDID(1))
 	}
 	vTag("proposedkey")
 	x := vString(1)
@@ -554,7 +558,7 @@ func vUpdate(b hBounds) *hUpdate {
 	vTag("signer")
 	u.signer = vString(1)
 	u.kr = &hKeyResolver{x: u.signer}
-	vProposed(u)
+	vProposed(u, b.propShapes)
 	u.amb = &ambassador{didStore: u.store, networkClient: u.net, keyResolver: u.kr, didResolver: &Resolver{Store: u.store}}
 	return u
 }
@@ -645,7 +649,7 @@ func (u *hUpdate) coverUpdate(accepted bool) {
 }
 
 func H09b() {
-	u := vUpdate(hBounds{vParam("b_docs", 2), vParam("b_vers", 2), vParam("b_ctrl", 2), vParam("b_octrl", 1), vParam("b_keys", 2), vParam("b_prevs", 2)})
+	u := vUpdate(hBounds{vParam("b_docs", 2), vParam("b_vers", 2), vParam("b_ctrl", 2), vParam("b_octrl", 0), vParam("b_keys", 1), vParam("b_prevs", 2), vParam("b_prop", 1)})
 	err := u.amb.handleUpdateDIDDocument(u.tx, u.proposed)
 	if len(u.store.adds) > 0 {
 		vCover("add-reached")
@@ -660,7 +664,7 @@ func H09b() {
 }
 
 func H09b_twin() {
-	u := vUpdate(hBounds{2, 1, 1, 0, 1, 1})
+	u := vUpdate(hBounds{2, 1, 1, 0, 1, 1, 1})
 	err := u.amb.handleUpdateDIDDocument(u.tx, u.proposed)
 	if err == nil && len(u.store.adds) == 1 && !hHasKey(u.w.ver(0, 0).keys, u.signer) {
 		vAssert(false, "H09b_twin.reach: reachable")
